@@ -12,7 +12,8 @@ RULE = (
     "Cases are (entry point, segment sequence): exhaustive sequences of length <= 4 (quick) / <= 5 (thorough) over the 12-symbol "
     "alphabet {., .., '', a, b, .a, a., ..a, ..., %2E, %2e%2E, .%2E} through 12 entry points (constructor with/without authority, "
     "rooted/rootless; build with/without host; with_path; '/' with a multi-segment piece; joinpath all-at-once and one-by-one; "
-    "join with rootless and rooted references), plus seeded random sequences up to 40 segments.  Signature = (entry point, "
+    "join with rootless and rooted references), all sequences of length <= 3 over a second alphabet whose symbols only BECOME dot segments when quoted "
+    "(dots mixed with lone surrogates, which both quoters drop), plus seeded random sequences up to 40 segments.  Signature = (entry point, "
     "multiset class of the sequence: which symbols occur, first and last symbol); non-trivial when a dot-like symbol occurs."
 )
 ASSUMPTIONS = [
@@ -21,7 +22,9 @@ ASSUMPTIONS = [
 ]
 
 ALPHA = [".", "..", "", "a", "b", ".a", "a.", "..a", "...", "%2E", "%2e%2E", ".%2E"]
-DOTLIKE = {".", "..", "%2E", "%2e%2E", ".%2E"}
+# a third spelling of a dot segment: text the quoter reduces to dots (it drops lone surrogates)
+HIDDEN = [".\udc80.", "\udc80..", "\udc80.", "..\udc80", ".\ud800", "\udc80", "a\udc80", "..", "a", ""]
+DOTLIKE = {".", "..", "%2E", "%2e%2E", ".%2E"} | set(HIDDEN[:5])
 
 
 def plan(tier, seed):
@@ -33,13 +36,18 @@ def plan(tier, seed):
     return jobs
 
 
+def nosur(path):
+    """Lone surrogates cannot be UTF-8 encoded; both quoters drop them, so '.\udc80.' IS the segment '..' once quoted."""
+    return "".join(c for c in path if not 0xD800 <= ord(c) <= 0xDFFF) if not path.isascii() else path
+
+
 def lit(path):
     """%2E spellings written as literal dots (what re-quoting does: '.' is unreserved)."""
-    return path.replace("%2E", ".").replace("%2e", ".")
+    return nosur(path).replace("%2E", ".").replace("%2e", ".")
 
 
 def pct25(path):
-    return path.replace("%", "%25")
+    return nosur(path).replace("%", "%25")
 
 
 def splice(base_path, pieces, has_netloc):
@@ -211,7 +219,8 @@ def run_seq(ctx, segs, full):
     for base, bpath in (("http://h/x/y", "/x/y"), ("http://h/x/y/", "/x/y/"), ("http://h", "")):
         if joined and not joined.startswith("/"):
             ref = guarded(URL, joined)
-            if not is_exc(ref) and not ref.scheme and not ref.raw_authority:
+            if not is_exc(ref) and not ref.scheme and not ref.raw_authority and lit(joined) and not lit(joined).startswith("/"):
+                # (a reference whose first segment vanishes when quoted is a rooted or empty reference: not this branch)
                 merged = rfc.merge(True, bpath, lit(joined))
                 ctx.ev(sig("join_rootless"))
                 verify(ctx, "join_rootless", {"entry": "join_rootless", "base": base, "segs": segs, "ref": joined},
@@ -240,6 +249,16 @@ def run(ctx):
                 run_seq(ctx, list(tup), True)
                 if i % 20011 == 0:
                     ctx.sample({"segs": list(tup)})
+        for L in range(1, 4):
+            for tup in itertools.product(HIDDEN, repeat=L):
+                i += 1
+                if not ctx.mine(i):
+                    continue
+                if all(x.isascii() for x in tup):
+                    continue
+                ctx.count("hidden_dot_sequences")
+                run_seq(ctx, list(tup), True)
+        ctx.sample({"segs": ["a", ".\udc80.", "b"]})
         ctx.notes["kernel_total"] = i
         return
     r = ctx.rng
